@@ -510,6 +510,88 @@ fn leaf_response_wrapper_restores() {
     }
 }
 
+// ---------------------------------------------------------------------------------------------- inner entry points: what happens to `self.headers` (C04, C16, C17, C18)
+// `Request/Response::parse_with_config_and_uninit_headers` are verified in Verus for status and start-line fields, but the header
+// routine's Drop guard makes Verus forget what `headers` is after the call, so "on Complete `self.headers` IS the slice the header
+// routine left (same address, same length), otherwise it is untouched" cannot be stated there.  It is checked here: the REAL entry
+// function on a concrete start line, with the header routine replaced by a model that leaves any prefix length k and any outcome.
+static mut H_K: usize = 0;
+static mut H_PTR: usize = 0;
+static mut H_CAP: usize = 0;
+fn model_hdr_iter<'a>(headers: &mut &mut [MaybeUninit<Header<'a>>], bytes: &mut Bytes<'a>, _config: &HeaderParserConfig) -> Result<usize> {
+    unsafe { M_CALLS += 1; H_PTR = headers.as_ptr() as usize; H_CAP = headers.len(); }
+    let k: usize = kani::any_where(|k: &usize| *k <= headers.len());
+    let mut i = 0;
+    while i < k { headers[i] = MaybeUninit::new(Header { name: "written", value: b"" }); i += 1; }
+    // what the Drop guard of the real routine does on every exit: shrink to the k written slots
+    let taken = core::mem::take(headers);
+    let (init, _) = taken.split_at_mut(k);
+    *headers = init;
+    unsafe { H_K = k; }
+    let r = model_result();
+    // the real routine consumes at most what is left of the buffer
+    if let Ok(Status::Complete(n)) = r { kani::assume(n <= bytes.len()); }
+    r
+}
+// the request target is taken by a model as well (the real parse_uri is verified in Verus; its UTF-8 check through std is what makes
+// CBMC slow here): it consumes "/p " and returns the two bytes before the space
+fn model_uri<'a>(bytes: &mut Bytes<'a>) -> Result<&'a str> {
+    unsafe { bytes.advance(3); }
+    let s = unsafe { bytes.slice_skip(1) };
+    Ok(Status::Complete(unsafe { core::str::from_utf8_unchecked(s) }))
+}
+#[kani::proof]
+#[kani::unwind(24)]
+#[kani::stub(crate::parse_headers_iter_uninit, model_hdr_iter)]
+#[kani::stub(crate::parse_uri, model_uri)]
+fn leaf_request_entry_installs_headers() {
+    let buf: &'static [u8] = b"GET /p HTTP/1.1\r\nrest";
+    let mut prior = [Header { name: SENTINEL, value: b"" }; 2];
+    let pl: usize = kani::any_where(|c: &usize| *c <= 2);
+    let pp = prior.as_ptr() as usize;
+    let mut scratch: [MaybeUninit<Header>; CAP] = [MaybeUninit::uninit(), MaybeUninit::uninit(), MaybeUninit::uninit()];
+    let cap: usize = kani::any_where(|c: &usize| *c <= CAP);
+    let sp = scratch.as_ptr() as usize;
+    let cfg = ParserConfig::default();
+    let mut req = Request::new(&mut prior[..pl]);
+    let r = req.parse_with_config_and_uninit_headers(buf, &cfg, &mut scratch[..cap]);
+    unsafe {
+        assert!(M_CALLS == 1 && H_CAP == cap && (H_PTR == sp || cap == 0));      // the header routine gets the caller's whole scratch array
+        match decode(M_RES, M_N) {
+            Ok(Status::Complete(n)) => {
+                assert!(r == Ok(Status::Complete(17usize.wrapping_add(n))));              // start-line length + what the routine consumed
+                assert!(req.headers.len() == H_K && (req.headers.as_ptr() as usize == sp || H_K == 0));
+            }
+            other => { assert!(r == other); assert!(req.headers.len() == pl && (req.headers.as_ptr() as usize == pp || pl == 0)); }
+        }
+    }
+}
+#[kani::proof]
+#[kani::unwind(24)]
+#[kani::stub(crate::parse_headers_iter_uninit, model_hdr_iter)]
+fn leaf_response_entry_installs_headers() {
+    let buf: &'static [u8] = b"HTTP/1.1 200 OK\r\nrest";
+    let mut prior = [Header { name: SENTINEL, value: b"" }; 2];
+    let pl: usize = kani::any_where(|c: &usize| *c <= 2);
+    let pp = prior.as_ptr() as usize;
+    let mut scratch: [MaybeUninit<Header>; CAP] = [MaybeUninit::uninit(), MaybeUninit::uninit(), MaybeUninit::uninit()];
+    let cap: usize = kani::any_where(|c: &usize| *c <= CAP);
+    let sp = scratch.as_ptr() as usize;
+    let cfg = ParserConfig::default();
+    let mut resp = Response::new(&mut prior[..pl]);
+    let r = resp.parse_with_config_and_uninit_headers(buf, &cfg, &mut scratch[..cap]);
+    unsafe {
+        assert!(M_CALLS == 1 && H_CAP == cap && (H_PTR == sp || cap == 0));
+        match decode(M_RES, M_N) {
+            Ok(Status::Complete(n)) => {
+                assert!(r == Ok(Status::Complete(17usize.wrapping_add(n))));
+                assert!(resp.headers.len() == H_K && (resp.headers.as_ptr() as usize == sp || H_K == 0));
+            }
+            other => { assert!(r == other); assert!(resp.headers.len() == pl && (resp.headers.as_ptr() as usize == pp || pl == 0)); }
+        }
+    }
+}
+
 // ---------------------------------------------------------------------------------------------- slice-cast helpers (C01, C17)
 #[kani::proof]
 fn leaf_slice_casts_are_identity() {
